@@ -96,6 +96,66 @@ fn pi_mp() -> Mp {
     mp::from_ratio(&Big::from_digits(d, 10), &Big::from_u64(10).pow(59))
 }
 
+/// Exact backward orbits of log2's refinement map from its fixed point 1.0. The map on a mantissa M in [2^F, 2^(F+1))
+/// (raw units) is M -> floor(M^2 / 2^F), followed by a rounding halving when that reaches 2.0. Level d holds
+/// mantissas that land exactly on 1.0 after d steps (level 1: the values just above sqrt 2 whose truncated square is
+/// 2.0, ...). The tree is critical (about one preimage per node): for most fraction widths it dies after a few
+/// levels, for a few it reaches depth F. Computed once per fraction width, frontier capped at 64 nodes per level.
+fn log2_orbit_levels(f: u32) -> std::sync::Arc<Vec<Vec<Big>>> {
+    use std::collections::HashMap;
+    use std::sync::{Arc, Mutex, OnceLock};
+    static CACHE: OnceLock<Mutex<HashMap<u32, Arc<Vec<Vec<Big>>>>>> = OnceLock::new();
+    let cache = CACHE.get_or_init(|| Mutex::new(HashMap::new()));
+    if let Some(v) = cache.lock().unwrap().get(&f) {
+        return v.clone();
+    }
+    let (one, two, four) = (Big::pow2(f), Big::pow2(f + 1), Big::pow2(f + 2));
+    let preimages = |y: &Big| -> Vec<Big> {
+        let mut squares = Vec::new();
+        if *y < two {
+            squares.push(y.clone());
+        }
+        for c in [y.shl(1).add_i64(-1), y.shl(1)] {
+            if c >= two && c < four {
+                squares.push(c);
+            }
+        }
+        let mut out = Vec::new();
+        for c in squares {
+            // floor(M^2 / 2^F) == c  <=>  c 2^F <= M^2 <= (c + 1) 2^F - 1
+            let lo_sq = c.shl(f);
+            let hi = isqrt(&c.add_i64(1).shl(f).add_i64(-1));
+            let fl = isqrt(&lo_sq);
+            let mut m = if fl.mul(&fl) == lo_sq { fl } else { fl.add_i64(1) };
+            while m <= hi {
+                if m >= one && m < two && m != *y {
+                    out.push(m.clone());
+                }
+                m = m.add_i64(1);
+            }
+        }
+        out
+    };
+    let mut levels: Vec<Vec<Big>> = vec![vec![one.clone()]];
+    for _ in 0..f {
+        let mut next: Vec<Big> = Vec::new();
+        for y in levels.last().unwrap() {
+            for m in preimages(y) {
+                if next.len() < 64 && !next.contains(&m) {
+                    next.push(m);
+                }
+            }
+        }
+        if next.is_empty() {
+            break;
+        }
+        levels.push(next);
+    }
+    let v = Arc::new(levels);
+    cache.lock().unwrap().insert(f, v.clone());
+    v
+}
+
 /// operands for function `op` on pair (sl -> dl)
 #[allow(clippy::too_many_arguments)]
 fn operands(prop: &str, op: u16, sl: L, dl: L, mode: usize, ia: Ing, ib: Ing, r1: u128, r2: u128) -> (u128, u128) {
@@ -155,6 +215,17 @@ fn operands(prop: &str, op: u16, sl: L, dl: L, mode: usize, ia: Ing, ib: Ing, r1
                     } else {
                         sl.wrap(&x.add_i64(small(r1 >> 64).clamp(-1, 1)))
                     }
+                }
+                8 | 9 if (r2 >> 120) & 3 == 0 && sl == dl && sl.f >= 8 => {
+                    // exact backward orbit of the refinement map (deepest levels preferred), times a power of two
+                    let levels = log2_orbit_levels(sl.f);
+                    let n = levels.len();
+                    let li = if (r1 >> 100) & 1 == 0 { n - 1 - ((r1 >> 101) as usize % n.min(3)) } else { (r1 >> 101) as usize % n };
+                    let node = &levels[li][(r1 >> 64) as usize % levels[li].len()];
+                    let top = if sl.signed { sl.w - 1 } else { sl.w };
+                    let room = top.saturating_sub(sl.f + 1);
+                    let j = if room > 0 { ((r2 >> 8) % (room as u128 + 1)) as u32 } else { 0 };
+                    sl.wrap(&node.shl(j))
                 }
                 8 | 9 => {
                     // branch boundaries of the bit-by-bit logarithm: x = 2^(k + j/2^m), where a repeated squaring
@@ -430,15 +501,15 @@ impl Engine for Math {
     fn budget(&self, prop: &str, tier: Tier) -> Budget {
         let strata: Vec<u16> = (0..NPAIRS as u16).collect();
         match (prop, tier) {
-            ("C12", Tier::Quick) => Budget { random: 400_000, per_stratum: 4_000, strata },
-            ("C12", Tier::Thorough) => Budget { random: 40_000_000, per_stratum: 200_000, strata },
-            ("C17", Tier::Quick) => Budget { random: 2_000_000, per_stratum: 20_000, strata },
-            ("C17", Tier::Thorough) => Budget { random: 400_000_000, per_stratum: 2_000_000, strata },
-            ("C16", Tier::Quick) => Budget { random: 2_000_000, per_stratum: 30_000, strata: (0..11).collect() },
-            ("C16", Tier::Thorough) => Budget { random: 60_000_000, per_stratum: 1_000_000, strata: (0..11).collect() },
-            ("C15", Tier::Quick) => Budget { random: 150_000, per_stratum: 2_000, strata },
+            ("C12", Tier::Quick) => Budget { random: 400_000, per_stratum: 1_500, strata },
+            ("C12", Tier::Thorough) => Budget { random: 40_000_000, per_stratum: 100_000, strata },
+            ("C17", Tier::Quick) => Budget { random: 2_000_000, per_stratum: 10_000, strata },
+            ("C17", Tier::Thorough) => Budget { random: 400_000_000, per_stratum: 1_000_000, strata },
+            ("C16", Tier::Quick) => Budget { random: 2_000_000, per_stratum: 20_000, strata: pairs_for(SIN) },
+            ("C16", Tier::Thorough) => Budget { random: 60_000_000, per_stratum: 600_000, strata: pairs_for(SIN) },
+            ("C15", Tier::Quick) => Budget { random: 120_000, per_stratum: 300, strata },
             (_, Tier::Quick) => Budget { random: 1_500_000, per_stratum: 20_000, strata },
-            ("C15", Tier::Thorough) => Budget { random: 15_000_000, per_stratum: 100_000, strata },
+            ("C15", Tier::Thorough) => Budget { random: 15_000_000, per_stratum: 30_000, strata },
             (_, Tier::Thorough) => Budget { random: 150_000_000, per_stratum: 1_000_000, strata },
         }
     }
@@ -466,13 +537,13 @@ impl Engine for Math {
         }
     }
     fn rule(&self, prop: &str) -> String {
-        let types = "24 source->destination pairs: same-type I9F23 I9F55 I16F48 I24F40 I32F32 I41F23 I9F119 I40F88 I64F64 I96F32 I105F23; I9F23->I32F32 I9F23->I64F64 I32F32->I64F64 I16F48->I40F88 I9F23->I9F55 I24F40->I40F88; unsigned sqrt U9F23 U32F32 U64F64 U96F32 U32F32->U64F64; U9F23->I32F32 U32F32->I64F64 (sqrt, powi)";
+        let types = "150 source->destination pairs: every signed layout of the scope as a same-type pair (I9F23; the 33 64-bit layouts I41F23..I9F55; the 97 128-bit layouts I105F23..I9F119); I9F23->I32F32 I9F23->I64F64 I32F32->I64F64 I16F48->I40F88 I9F23->I9F55 I24F40->I40F88 I9F23->I33F31 I33F31->I42F86 I24F40->I28F100; unsigned sqrt U9F23 U32F32 U64F64 U96F32 U33F31 U42F86 U32F32->U64F64; U9F23->I32F32 U32F32->I64F64 U33F31->I42F86 (sqrt, powi)";
         match prop {
             "C12" => format!("cases = (function, type pair, operands) over {}; operands over the whole source type (classes, log-uniform magnitudes, powers of two, thresholds of the result range), pow exponents, powi exponents from small/2^k+-1/i32::MIN/i32::MAX/uniform (|n| capped at 2^17 where |x| <~ 1, where the loop cannot leave early, except a few uncapped i32::MIN/MAX exponents on 32-bit sources), trig angles |x| <= 200 (tan 100). Oracle: outcome is Ok/Err/return in both profiles (no unwind), domain rules (sqrt of negative, log of non-positive, negative base with fractional exponent => Err), true result (320-bit oracle, 2^-16 guard band) above the destination maximum => Err. Non-trivial: operand magnitude outside [2^-4, 24] or an Err outcome.", types),
             "C13" => format!("cases = sqrt over {}; x log-uniform, perfect squares +-1 ulp, near 1, smallest invertible, extremes. Oracle: exact integer bracket (r-4)^2 <= X*2^F <= (r+4)^2, r >= 0, sqrt(0)=0, sqrt(1)=1; Err only for x < 0 or unrepresentable reciprocal. Non-trivial: x not in {{0, 1}}.", types),
             "C14" => format!("cases = log2/ln over {}; x log-uniform, powers of two +-ulps, near 1, smallest invertible. Oracle: 320-bit log2/ln (atanh series; self-tested against embedded 60-digit constants and identities): |r - log2 x| <= 8 ulp, exact on powers of two, sign rule, |r - ln x| <= 2^-23 |ln x| + 8 ulp; Err only for x <= 0 or unrepresentable reciprocal. Non-trivial: x != 1.", types),
             "C15" => format!("cases = exp/pow/powi over {}; exp operands uniform in x and in e^x up to the overflow threshold; pow bases log-uniform with exponents within the threshold, small integers and halves; powi as in C12. Oracle: 320-bit exp and exp(y ln x); exact rational X^n (big integers) or 320-bit for powi; bounds as stated in the property; n < 0 metamorphic: powi(x,n) == 1.checked_div(powi(x,|n|)); conventions 0^y=0, x^0=1, x^1=x exact. Non-trivial: Ok result other than the conventions.", types),
-            "C16" => "cases = sin/cos/tan over the 11 same-type signed pairs; angles uniform in |x| <= 200 (tan 100), multiples of pi/4 +- ulps, tiny angles, near the limit; I9F23 angles enumerated (every pattern in the thorough tier, every 1024th in quick). Oracle: f64 libm on the operand rounded to f64 (|x| <= 200 => argument error <= 2^-45, libm <= 1 ulp) with 2^-36 added to every bound: |sin - s|, |cos - c| <= 2^-16, range [-1-2^-16, 1+2^-16], |tan - t| <= 2^-14 (1+t^2) where |t| <= 64 (2^-30 guard band, cases inside skipped). Non-trivial: |x| > 2 or within 2^-10 of a quadrant boundary.".into(),
+            "C16" => "cases = sin/cos/tan over the 131 same-type signed pairs (every signed layout of the scope); angles uniform in |x| <= 200 (tan 100), multiples of pi/4 +- ulps, tiny angles, near the limit; I9F23 angles enumerated (every pattern in the thorough tier, every 1024th in quick). Oracle: f64 libm on the operand rounded to f64 (|x| <= 200 => argument error <= 2^-45, libm <= 1 ulp) with 2^-36 added to every bound: |sin - s|, |cos - c| <= 2^-16, range [-1-2^-16, 1+2^-16], |tan - t| <= 2^-14 (1+t^2) where |t| <= 64 (2^-30 guard band, cases inside skipped). Non-trivial: |x| > 2 or within 2^-10 of a quadrant boundary.".into(),
             "C17" => format!("cases = every function except powi over {}, operands weighted to the largest and smallest magnitudes; oracle: hook loop counter with hard limit 4*width+64 (the marker panic is the violation, so an unbounded loop costs 4*width+65 iterations to detect). Non-trivial: operand magnitude >= 2^8 or <= 2^-8.", types),
             _ => String::new(),
         }
